@@ -110,3 +110,6 @@ def run(ctx):
                     if bytes.fromhex(txt).decode("latin-1") != lab:
                         ctx.fail(f"record of line {ln}: label.dump() is {bytes.fromhex(txt)!r}, the file says {lab!r}", op=line, impl=a, model=b, extra={"stream": "dump-oracle"})
     ctx.notes["lookups_with_candidates"] = ncand
+    # 3. impersonate_tcp(raw_label=..): the packet realises one of the signatures filed under the label for the base's direction
+    from . import C05
+    C05.label_cases(ctx, ctx.n(500, 10000))
